@@ -136,6 +136,15 @@ def parseOp (tok : String) : Option Op :=
       | some [s] => some (.peof s.toNat)
       | _ => none
   | ['e'] => some .eof
+  -- the child closes its output descriptors and lives on (no EOF while the spawner holds the write end)
+  | ['y', a, b] => match unhex (String.ofList [a, b]) with
+      | some [s] => some (.cclose s.toNat)
+      | _ => none
+  -- death with the EOF on the pipe becoming visible before the SIGCHLD handler has run: impossible while the spawner
+  -- holds the write end until the handler runs, so for the model it is the one-wake-up death
+  | 'v' :: a :: b :: h => match unhex (String.ofList [a, b]), unhex (String.ofList h) with
+      | some [s], some [w1, w0] => some (.exit s.toNat (w1.toNat * 256 + w0.toNat))
+      | _, _ => none
   | _ => none
 
 def parseScript (s : String) : Option (List Op) :=
@@ -182,8 +191,49 @@ def parseTrace (toks : List String) : Option (List Ev × Bool) := do
     | _ => none
   return (evs, normal)
 
-def handle (st : Stats) (kindS planh scriptS trace : String) : IO Stats := do
+/-- the world's tokens (`b<ss>` child born, `r<ss><wwww>` child reaped with this status, `p<ss><wwww>` report() called with this
+    status) are not program output: they are
+    taken out of the trace — adjacent `W` tokens they had separated are merged again — before it is compared with the model -/
+def isLifeTok (t : String) : Bool := t.startsWith "b" || t.startsWith "r" || t.startsWith "p"
+
+def mergeW : List String → List String
+  | a :: b :: r =>
+    if a.startsWith "W" && b.startsWith "W" then mergeW ((a ++ b.drop 1) :: r) else a :: mergeW (b :: r)
+  | l => l
+termination_by l => l.length
+
+def stripLife (toks : List String) : List String := mergeW (toks.filter (fun t => !isLifeTok t))
+
+/-- the trace as the life of the children interleaved with the reports -/
+def lifeOf (toks : List String) : Option (List Nq.Spec.TB.Life) := do
+  let mut l : List Nq.Spec.TB.Life := []
+  let mut first := true
+  for t in toks do
+    match t.toList with
+    | 'b' :: h => let s ← unhex (String.ofList h); l := l ++ [.born (s.headD 0).toNat]
+    | 'r' :: a :: b :: h =>
+      let s ← unhex (String.ofList [a, b]); let w ← unhex (String.ofList h)
+      match w with
+      | [w1, w0] => l := l ++ [.reaped (s.headD 0).toNat (w1.toNat * 256 + w0.toNat)]
+      | _ => none
+    | 'p' :: a :: b :: h =>
+      let s ← unhex (String.ofList [a, b]); let w ← unhex (String.ofList h)
+      match w with
+      | [w1, w0] => l := l ++ [.call (s.headD 0).toNat (w1.toNat * 256 + w0.toNat)]
+      | _ => none
+    | 'W' :: h =>
+      let bs ← unhex (String.ofList h)
+      let body := if first then bs.drop 1 else bs
+      first := false
+      let reps ← Nq.Spec.TB.parseReports (bs.length + 1) body
+      l := l ++ reps.map (fun (d, b) => Nq.Spec.TB.Life.report d b)
+    | _ => pure ()
+  return l
+
+def handle (st : Stats) (kindS planh scriptS rawTrace : String) : IO Stats := do
   let kind := if kindS == "l" then Kind.l else Kind.r
+  let rawToks := rawTrace.splitOn ","
+  let trace := ",".intercalate (stripLife rawToks)
   match planOf planh, parseScript scriptS with
   | some plan, some script =>
     -- what the program can have read: the bytes that arrive on descriptor 0 before its EOF
@@ -197,6 +247,8 @@ def handle (st : Stats) (kindS planh scriptS trace : String) : IO Stats := do
     let model := ",".intercalate (render [] (run kind plan script).2 ++ [s!"q{runConsumed kind plan script}", "e0"])
     if script.any (fun o => match o with | .eof => true | _ => false) then st := st.bump "spawn_eof_midway"
     if script.any (fun o => match o with | .reap _ _ => true | _ => false) then st := st.bump "spawn_reap_then_eof"
+    if script.any (fun o => match o with | .cclose _ => true | _ => false) then st := st.bump "spawn_child_closes_output_early"
+    if (scriptS.splitOn ".").any (fun t => t.startsWith "v") then st := st.bump "spawn_eof_before_sigchld"
     if model != trace then
       st ← disagree st s!"kind=spawn{kindS} in={scriptS} plan={planh} impl={trace} model={model}"
     match parseTrace (trace.splitOn ",") with
@@ -207,8 +259,11 @@ def handle (st : Stats) (kindS planh scriptS trace : String) : IO Stats := do
         st ← oracleFail st s!"kind=spawn{kindS} in={scriptS} plan={planh} impl={trace} (open/spawn discipline)"
       else if !(Nq.Spec.TB.reportsOK cmds (Nq.Spec.TB.reportsOf evs)) then
         st ← oracleFail st s!"kind=spawn{kindS} in={scriptS} plan={planh} impl={trace} commands={cmds.length} reports={(Nq.Spec.TB.reportsOf evs).length} (one report per command)"
+      else if (match lifeOf rawToks with | some l => !(Nq.Spec.TB.lifeOK l) | none => true) then
+        st ← oracleFail st s!"kind=spawn{kindS} in={scriptS} plan={planh} impl={rawTrace} (report() was called before wait() had handed over the status of the delivery's child or with another status, or a crash/non-zero exit was relayed as success: b=child born, r=child reaped with status, p=report() called with status)"
       else
         if evs.any (fun e => match e with | .spawnCall _ _ _ _ => true | _ => false) then st := st.bump "spawn_child_started"
+        if rawToks.any (fun t => t.startsWith "r" && !(t.endsWith "0000")) then st := st.bump "spawn_child_ended_abnormally"
       if fresh && st.samples < 4 && cmds.length ≥ 2 && trace.length < 600 then
         IO.println s!"SAMPLE kind=spawn{kindS} script={scriptS} plan={planh} trace={trace}"
         st := { st with samples := st.samples + 1 }
